@@ -133,6 +133,13 @@ def _set(container: Any, key: Any, value: Any) -> Any:
     return value
 
 
+def _multiply(op1: Any, op2: Any) -> Any:
+    if not isinstance(op1, (Decimal_, int, float)) or not isinstance(op2, (Decimal_, int, float)):
+        raise ParserError(f'Can\'t multiply non-numbers')
+
+    return Decimal(op1) * Decimal(op2)
+
+
 def _set_with_op(container: Any, key: Any, op: str, value: Any) -> Any:
     _check_array_size(container)
 
@@ -149,7 +156,7 @@ def _set_with_op(container: Any, key: Any, op: str, value: Any) -> Any:
     elif op == '-=':
         container[key] -= value
     elif op == '*=':
-        container[key] *= value
+        container[key] = _multiply(container[key], value)
     elif op == '/=':
         container[key] /= value
     else:
